@@ -198,8 +198,17 @@ def rule_siblings(rep):
             for w in a.get("writes", []):
                 wr.append(nbit(w["rhs"]))
             per.setdefault(a["variant"], {})[t] = (calls, asg, rd, wr)
+    import re as _re
+
+    def unsuffix(o):
+        """locals brought in by an inlined helper carry a per-call-site suffix (`n__h5`): the comparison is up to those names"""
+        if isinstance(o, str):
+            return _re.sub(r"__[ht]\d+", "", o)
+        if isinstance(o, (list, tuple)):
+            return type(o)(unsuffix(x) for x in o)
+        return o
     for v, d in per.items():
-        ok = "SincFixedIn" in d and "SincFixedOut" in d and d["SincFixedIn"] == d["SincFixedOut"]
+        ok = "SincFixedIn" in d and "SincFixedOut" in d and unsuffix(d["SincFixedIn"]) == unsuffix(d["SincFixedOut"])
         rep.ob(R, v, ok, "per-frame computation of the %s arm must agree between SincFixedIn and SincFixedOut: %s vs %s" % (v, str(d.get("SincFixedIn"))[:200], str(d.get("SincFixedOut"))[:200]), "src/asynchro_sinc.rs",
                sample={"variant": v, "facts": str(d.get("SincFixedIn"))[:200]})
 
